@@ -25,7 +25,7 @@ META = {
         "R01.2": "per-leaf effect rows / conditional action tables equal the oracle on the boundary grid",
         "R01.3": "value closures: primitive and operand order",
         "R01.4": "parity idioms are sign-safe",
-        "R01.5": "interpreter order and block unfolding",
+        "R01.5": "interpreter order and block unfolding; every program taken off the exec stack is performed on every path",
         "R01.6": "input variables",
         "R01.7": "printing",
     },
@@ -342,6 +342,8 @@ def check_parity(ctx, leaves):
 
 
 def check(ctx):
+    from .common import shadowing_audit
+    ctx.floor('R01.2', shadowing_audit(ctx, 'R01.2', ('push::instruction::Instruction', 'push::push_vm::', 'push::error::')), 20, 'Instruction / State / HasStack impls of workspace types (shadowing audit)')
     from .ctors import check_table
     check_table(ctx, "C01", "R01.8")
     F = ctx.F
@@ -435,6 +437,24 @@ def check(ctx):
             detail = short(perf[0], 4)
     ctx.check(ok, "R01.5", "run_to_completion/performs-popped-exec-top", detail, f.at(),
               bad_detail="each step must pop the top of the exec stack and perform exactly that program on the state; extracted " + detail)
+    # ... on *every* path: a program taken off the exec stack is performed before the loop goes on or the run ends (an added
+    # `break` / `continue` between the pop and the perform silently drops an instruction)
+    dropped = []
+    n_taken = 0
+    for p in ctx.paths(f):
+        if p.end == "unreachable":
+            continue
+        pops = [c for c in p.calls() if callee_is(c, "Stack::pop") and (lambda t: t[0] == "field" and t[2] == "exec" and peel(t[1], ()) == ("param", 1))(peel(c[3][0], ()))]
+        took = [c for c in pops if any(cc[0][0] == "discr" and peel(cc[0][1], ()) == c and cc[1] == 0 for cc in p.conds)]
+        if not took:
+            continue
+        n_taken += 1
+        perf = [c for c in p.calls() if callee_is(c, "State::perform", "Instruction::perform")]
+        if not (len(took) == 1 and len(perf) == 1 and mentions(peel(perf[0][3][1], ()), took[0]) and p.calls().index(took[0]) < p.calls().index(perf[0])):
+            dropped.append(p)
+    ctx.check(n_taken >= 1 and not dropped, "R01.5", "run_to_completion/every-popped-program-is-performed", "%d path(s) take a program off the exec stack, each performs it" % n_taken, f.at(),
+              bad_detail="a path takes a program off the exec stack (pop == Ok) and leaves the iteration without performing it: [%s] end=%s" % (
+                  "; ".join(str(cc[1]) for cc in (dropped[0].conds if dropped else [])[-6:]), dropped[0].end if dropped else "-"))
     vf = ctx.trait_fn("push::instruction::Instruction::perform", "std::vec::Vec<I>")
     okb = False
     detail = "-"
